@@ -283,7 +283,10 @@ def run_scenario(case, observer=None):
                "timers": {n.name: n.controller.sectioning_time.get_hours() for n in v.nets},
                "ptimers": {n.name: n.controller.parent_sectioning_time.get_hours() for n in v.nets if hasattr(n.controller, "parent_sectioning_time")},
                "failed": [l.name for l in v.lines if l.failed],
-               "ict_failed": [c.name for c in list(getattr(ps, "ict_lines", [])) + list(getattr(ps, "ict_nodes", [])) if c.failed]}
+               "ict_failed": [c.name for c in list(getattr(ps, "ict_lines", [])) + list(getattr(ps, "ict_nodes", [])) if c.failed],
+               # sensors / intelligent switches / controllers that are not in service (a sensor under repair keeps its section out)
+               "dev_bad": [d_.name for d_ in list(getattr(ps, "sensors", [])) + list(getattr(ps, "intelligent_switches", [])) + [ps.controller]
+                           if getattr(getattr(d_, "state", None), "name", "OK") != "OK"]}
         # C07.breaker_open_only_while on the real objects: after the control pass a breaker is open only while the sectioning time
         # runs, the section of its own line holds a failed line, or the survival hold applies
         bad = []
